@@ -101,6 +101,13 @@ CHECKS = {
             "Every compiled module is checked by an independent IR checker that reads operands through the public accessors and "
             "runs a forward must-be-defined analysis over the instruction-level CFG the VM executes.",
             "Trusted: vf/irwf.py CFG construction mirrors VM.__Execute; operands are resolved by reference number.", "4/C14"),
+    "C15": ("exploration",
+            "Hypothesis stateful testing (RuleBasedStateMachine: NewVM / SetGlobal / Invoke / GetGlobal) against a reference state "
+            "machine driven by the reference interpreter",
+            "Generated histories of host operations on up to three VMs of one linked program are executed step by step on the real "
+            "VMs and on a model (one globals map per VM, invocations by the reference interpreter); every global of every VM and "
+            "every returned value is compared after every step; failing histories shrink as one value.",
+            "Trusted: vf/interp.py; invocations leaving the numeric domain are skipped and counted.", "4/C15"),
 }
 
 PENDING = {}
